@@ -32,7 +32,11 @@ def run_case(case):
     r = Result()
     sch = case['schema']
     text = L.render(sch, case.get('style', 0), case.get('moves', ()))
-    fns = G.user_fns()
+    # user functions may consult application state (an enrolment / revocation table): what they answer NOW is what counts.  Here
+    # every function's answer is inverted while `mood['inv']` is set (second pass below)
+    mood = {'inv': False}
+    fns = {k_: (f_ if k_ in DEFAULT_USER_FNS else (lambda c_, a_, f_=f_: (not f_(c_, a_)) if mood['inv'] else f_(c_, a_)))
+           for k_, f_ in G.user_fns().items()}      # (the library runs with the $eq / $eq_type it ships: those stay as they are)
     if chain_count(sch) > MAX_CHAINS:
         r.discarded = True
         return r
@@ -107,6 +111,29 @@ def run_case(case):
                 break
         if r.violations:
             break
+    if not r.violations and 'fn' in str(sch):
+        # second pass on the SAME checker objects after the application state behind the user functions has changed
+        mood['inv'] = True
+        try:
+            for i, pkt in enumerate(pool[:10]):
+                for j, key in enumerate(pool[:10]):
+                    want = L.can_sign(sch, pkt, key, fns, ex)
+                    for label, ck in (('direct', checker), ('loaded', loaded)):
+                        try:
+                            got = bool(ck.check(list(pkt), list(key)))
+                        except Exception as e:
+                            r.bad(f'C12/check-raised/{type(e).__name__}/after-user-function-state-change', f'{e!r} pkt={_show(pkt)} key={_show(key)} :: {text}')
+                            break
+                        if got != want:
+                            r.bad(f'C12/{label}/{"allows-forbidden" if got else "refuses-allowed"}/after-user-function-state-change',
+                                  f'pkt={_show(pkt)} key={_show(key)} :: {text}')
+                            break
+                    if r.violations:
+                        break
+                if r.violations:
+                    break
+        finally:
+            mood['inv'] = False
     shared = _shared_constrained(sch)
     nontrivial = (shared or case.get('templated')) and yes > 0 and no > 0
     r.key = text if nontrivial else None
